@@ -188,7 +188,6 @@ def specG (text : List Char) (extra : List String) (ans : String) : String :=
               | _ => s!"fail eval-error {v}"
           | none => "fail unparsable-answer"
         else if ans.startsWith "panic" then "fail panic"
-        else if cst.bareNegExponent then s!"fail pow-neg-exponent conventional value {hex64 want}, got {ans.take 40}"
         else if cst.bigInt then s!"fail int-literal-overflow conventional value {hex64 want}, got {ans.take 40}"
         else s!"fail valid-expression-rejected expected value {hex64 want}"
     | _, _ => "fail bad-request"
